@@ -8,6 +8,14 @@ def R(pkg, run, quick, thorough, **kw):
 LAB = "./internal/zzverif/lab"
 
 CHECKS = {
+    "C12": {
+        "runs": [
+            R(LAB, "^TestC12Faults", {"checks": 1200, "timeout": 600}, {"checks": 3000, "shards": 12, "timeout": 2400}),
+            R(LAB, "^TestC12CutEnum", {"checks": 1, "timeout": 600}, {"checks": 1, "timeout": 2400}),
+            R(LAB, "^TestC12Hostile", {"checks": 500, "timeout": 600}, {"checks": 4000, "shards": 4, "timeout": 2400}),
+        ],
+        "fuzz": [{"pkg": LAB, "target": "FuzzC12Hostile", "time": "120s", "parallel": 4, "key": "C12:hostile:fuzz"}],
+    },
     "C06": {
         "runs": [
             R(LAB, "^TestC06", {"checks": 600, "timeout": 600}, {"checks": 2500, "shards": 16, "timeout": 2400}),
@@ -61,9 +69,15 @@ CHECKS = {
     },
 }
 
-LEVELS = {}  # default: exploration
+LEVELS = {"C12": "fault_enumeration"}  # default: exploration
 
 RULES = {
+    "C12": "fault laboratory: scripted plain / TLS origins, a TLS origin with a certificate of an unknown CA, a peer answering the TLS hello in clear, a peer closing on the hello, an upstream HTTP proxy that rejects CONNECT with a code encoded in the target name, a refused port and a dialer wrapper that returns a time-out; proxies: direct, MITM, upstream, MITM+upstream, dead upstream. "
+           "(1) rapid draws one exchange {route x method GET/POST/HEAD/CONNECT x fault from {none, refused, dial time-out, TLS garbage / EOF / bad certificate, upstream CONNECT rejection with 403/407/429/502/503 and a body, FIN or RST after k bytes of the reply (k = 0, inside the head, mid-body, one byte short), bad status line, corrupt chunk size, differing Content-Lengths} x reply status/framing/body size around 4 KiB and 32 KiB} plus a fault-free follow-up request on the same connection; "
+           "(2) every cut offset k (FIN and RST) of a small Content-Length and a small chunked reply is enumerated (every 3rd offset on the direct route in quick, every offset on direct/MITM/upstream routes in thorough); "
+           "(3) hostile client byte streams (10 base requests incl. pipelined, CONNECT+payload, h2 preface and a TLS hello, mutated by bit flips, truncation, hostile insertions, 1 MiB lines, duplications, number replacements; or garbage) on the plain listener, inside and instead of the MITM TLS session, each followed by probe exchanges. "
+           "Oracle: strict client-side parse; a complete reply is either an X-Forwarder-Error response with the mapped status (502 refused / TLS, 504 time-out, the upstream's status and body for a rejected CONNECT, else 5xx) or exactly the origin's intended reply; a truncated message is acceptable only if origin bytes could already have been relayed; anything malformed, a complete-but-short body, an out-of-sync follow-up, a failed probe or a process crash is a violation. "
+           "Non-trivial = fault inside the reply head or body, corrupt chunk, upstream rejection, TLS fault, or hostile input whose first line is intact. Distinct = distinct exchanges / byte streams.",
     "C05": "routing laboratory: three origins (two DNS names mapped by base connect-to rules, and localhost), HTTP proxies P and Q, an HTTPS proxy T, a SOCKS5 server S and a redirect target R, all scripted loopback listeners. rapid draws a configuration {no upstream | static http P | https T | socks5 S | generated PAC table host->result from 22 result strings (DIRECT, empty, PROXY/HTTP/HTTPS/SOCKS5/SOCKS/SOCKS4, unknown and lower-case keywords, lists, leading empty entry, missing address/port, throwing script, number and null results)} x direct-domains lists with excludes x proxy-localhost allow/direct x 0-3 connect-to rules with empty fields, "
            "and 1-4 requests (plain HTTP or CONNECT, GET/POST/HEAD) to the three hosts on a fresh proxy. Oracle: reference routing function (localhost-direct, direct-domains, static/PAC first entry, first matching connect-to rule) -> expected hop, dial address and listener; observed: the proxy's dial log (subset of {expected hop address}), per-listener accept/byte deltas (expected listener active, nobody else except the final target of a harness tunnel), request form seen by the hop (origin-form / absolute-form / CONNECT / SOCKS5 target); undeterminable routes must give 5xx and contact nobody. "
            "Non-trivial = PAC or connect-to rules present, or two requests of the case take different routes. Distinct = distinct (configuration, requests).",
@@ -101,6 +115,10 @@ RULES = {
 }
 
 ASSUMPTIONS = {
+    "C12": ["a read-to-close reply that ends early is indistinguishable from a complete one, so body cuts are generated for Content-Length and chunked replies only",
+            "exact status mapping is asserted for refused / unreachable (502), certificate and non-TLS peer (502), dial time-out (504), upstream CONNECT rejection (its status and body); other fault classes need any 5xx",
+            "for hostile client input only survival (no crash, probes served) is claimed by the property; malformed answers to malformed input (e.g. 'HTTP/2.0 500' to an h2 preface) are counted, not judged",
+            "dial time-outs are injected by a dialer wrapper returning a net.OpError with Timeout()=true"],
     "C05": ["every address of the sandbox is a loopback address, so non-local hosts are DNS names resolved by base connect-to rules appended after the generated rules",
             "listener activity is sampled after a quiescence wait (pooled connections of the previous case's proxy close asynchronously)",
             "when a hop is redirected to a listener speaking another protocol only the contact itself is asserted",
@@ -137,6 +155,11 @@ ASSUMPTIONS = {
 # MANIFEST texts
 
 META = {
+    "C12": {
+        "technique": "fault injection over generated and enumerated fault points (rapid + exhaustive cut offsets) with a strict independent response parser as oracle; generated and coverage-guided (native fuzz, thorough) hostile client streams with liveness probes",
+        "text": "Every fault point of an upstream exchange that the harness can script (dial, TLS, CONNECT reply, every byte offset of a reply, FIN vs RST, malformed replies) is crossed with request kinds and routes; the client-visible outcome must be a mapped, well-formed error response or a truncated message followed by close, never a complete-looking short or foreign reply; hostile client bytes must not kill the process. 2000 cases quick; thorough: 36000 generated exchanges, every cut offset on three routes, 16000 hostile streams and a 2 min fuzz campaign.",
+        "note": "fault_enumeration is exhaustive only for the cut offsets of the two enumerated replies; everything else is sampled. Process crashes are attributed through the 'current case' file written before each case.",
+    },
     "C05": {
         "technique": "property-based testing (rapid): generated routing configurations (static / PAC tables / direct-domains / localhost mode / connect-to rules) on fresh proxies, reference routing function as oracle, observed by dial log and per-listener activity",
         "text": "Each generated request has exactly one expected first hop and dial address, or must fail; the check observes which scripted listener the proxy contacts and in which request form, and that nobody else is contacted. 600 configurations x 1-4 requests quick, 40000 thorough.",
